@@ -109,7 +109,7 @@ def run_history(arr, variant, ops):
     return lat, vals
 
 
-def full_report(lat):
+def full_report(lat, have_plaq=True):
     """constructor tables, adjacency matrix and the query helpers (after the cached attributes exist)"""
     r = {}
     r["vectors"] = np.asarray(lat.edges.vectors, dtype=float).reshape(-1, 2)
@@ -131,7 +131,7 @@ def full_report(lat):
     r["q_cwe"] = [[int(x) for x in graph_utils.clockwise_edges_about(v, lat)] if len(r["q_vn"][v][1]) else [] for v in range(lat.n_vertices)]
     r["q_en"] = [[int(x) for x in graph_utils.edge_neighbours(lat, e)] for e in range(lat.n_edges)]
     r["q_ap"] = []
-    for i in range(len(lat.plaquettes)):
+    for i in range(len(lat.plaquettes) if have_plaq else 0):
         a, b = graph_utils.adjacent_plaquettes(lat, i)
         r["q_ap"].append(([int(x) for x in np.atleast_1d(a)], [int(x) for x in np.atleast_1d(b)]))
     return r
@@ -227,7 +227,10 @@ def spec_tables(P, S, edges, crossing, vals, R, tolv):
     if any(isinstance(x, dict) for x in vals):
         w = [x for x in vals if isinstance(x, dict)][0]
         bad.append(("access-raises", f"accessing a cached attribute raised {w['raised']}: {w['msg']}"))
-        return bad
+        pl, npl, ep, vp = [], 0, [str((nE, 2))] + [[None, None]] * nE, [None] + [[]] * nV
+        plq_ok = False
+    else:
+        plq_ok = True
     n = len(pl)
     if npl != n:
         bad.append(("n-plaquettes", f"n_plaquettes = {npl} but len(plaquettes) = {n}"))
@@ -243,7 +246,9 @@ def spec_tables(P, S, edges, crossing, vals, R, tolv):
                 bad.append(("dart-twice", f"directed edge {(e, d)} belongs to plaquettes {dart_of[(e, d)]} and {i}"))
             dart_of[(e, d)] = i
     # an edge's two plaquettes: [forwards, backwards], INVALID where none
-    if ep[0] != str((nE, 2)):
+    if not plq_ok:
+        pass
+    elif ep[0] != str((nE, 2)):
         bad.append(("edge-sides", f"edges.adjacent_plaquettes has shape {ep[0]}, expected {(nE, 2)}"))
     else:
         for e in range(nE):
@@ -252,7 +257,7 @@ def spec_tables(P, S, edges, crossing, vals, R, tolv):
                 bad.append(("edge-sides", f"edges.adjacent_plaquettes[{e}] = {ep[1 + e]} but the plaquettes traversing it forwards/backwards are {want}"))
                 break
     # a vertex's plaquettes: exactly those that contain it, each once
-    if len(vp) - 1 != nV:
+    if plq_ok and len(vp) - 1 != nV:
         bad.append(("vertex-plaquettes", f"vertices.adjacent_plaquettes has {len(vp) - 1} rows for {nV} vertices"))
     elif ok_shape:
         cont = [[] for _ in range(nV)]
@@ -428,7 +433,9 @@ def compare_model(m, S, vals, R, tolv, beta_ok):
         if m["adjm"] != {(int(i), int(j)) for i, j in zip(*np.nonzero(R["adjm"]))}:
             diffs.append(("adjacency_matrix", ""))
     for op in range(4):
-        if model_value_as_impl(m["pure"][op], nV, nE) != impl_value_canon(op, vals[op]):
+        if isinstance(vals[op], dict):
+            diffs.append((OPS[op], "implementation raised"))
+        elif model_value_as_impl(m["pure"][op], nV, nE) != impl_value_canon(op, vals[op]):
             diffs.append((OPS[op], ""))
     if [(vs, es) for vs, es in m["q_vn"]] != [(vs, es) for vs, es in R["q_vn"]]:
         diffs.append(("vertex_neighbours", ""))
@@ -485,7 +492,8 @@ def work(item):
         # model's state machine on the same history: every value is the history-free one
         if hi < len(m["hist"]) and any(t != "=" for t in m["hist"][hi]):
             out["kmis"].append(f"model cache run returned a history-dependent value on {ops}")
-    R = full_report(lat0)
+    have_plaq = not any(isinstance(x, dict) for x in vals0)
+    R = full_report(lat0, have_plaq)
     for key, what in spec_tables(P, S, edges, crossing, vals0, R, tolv):
         out["violations"].append((key, f"{variant}: {what}"))
     bm = beta_margin(P, edges, crossing, S)
